@@ -157,7 +157,7 @@ theorem encodeCore_cases (c : Cfg) (idx off len core : Nat) (st st' : St)
     (cbdOf c core = 0 ∧ st' = st) ∨
     (cbdOf c core ≠ 0 ∧ ∃ ss,
       scaleRecords c (scaleChannels c off len core)
-        (pySliceIdx c.scales.length (off + core) (off + core + len) c.ncores) = .ok ss ∧
+        (pySliceIdx c.scales.length (off + core) (off + len) c.ncores) = .ok ss ∧
       (c.doWeights = true → (padTo16 (st.stream ++ ss) ++ (newRange c idx off len core st ss).weightData).length % 16 = 0) ∧
       st' = { stream := padTo16 (st.stream ++ ss) ++ (newRange c idx off len core st ss).weightData,
               ranges := st.ranges ++ [newRange c idx off len core st ss], index := st.index + 1 }) := by
@@ -171,7 +171,7 @@ theorem encodeCore_cases (c : Cfg) (idx off len core : Nat) (st st' : St)
     rw [if_neg h0] at h
     refine ⟨h0, ?_⟩
     cases hs : scaleRecords c (scaleChannels c off len core)
-        (pySliceIdx c.scales.length (off + core) (off + core + len) c.ncores) with
+        (pySliceIdx c.scales.length (off + core) (off + len) c.ncores) with
     | error e => rw [hs] at h; cases h
     | ok ss =>
       rw [hs] at h
@@ -294,12 +294,12 @@ structure Made (c : Cfg) (idx off len core : Nat) (r : Range) : Prop where
   hscaleCh : r.scaleCh = scaleChannels c off len core
   hweightCh : r.weightCh = if c.doWeights then weightChannels c off len core else []
   hcbd : r.cbd = cbdOf c core
-  recs : scaleRecords c r.scaleCh (pySliceIdx c.scales.length (off + core) (off + core + len) c.ncores) = .ok r.scaleData
+  recs : scaleRecords c r.scaleCh (pySliceIdx c.scales.length (off + core) (off + len) c.ncores) = .ok r.scaleData
   wdata : r.weightData = if c.doWeights then c.enc r.weightCh r.cbd else []
 
 theorem newRange_made (c : Cfg) (idx off len core : Nat) (st : St) (ss : List Nat)
     (hs : scaleRecords c (scaleChannels c off len core)
-        (pySliceIdx c.scales.length (off + core) (off + core + len) c.ncores) = .ok ss) :
+        (pySliceIdx c.scales.length (off + core) (off + len) c.ncores) = .ok ss) :
     Made c idx off len core (newRange c idx off len core st ss) :=
   { hcore := rfl, hdepth := rfl, hslice := rfl, hscaleCh := rfl, hweightCh := rfl, hcbd := rfl, recs := hs,
     wdata := by simp only [newRange] }
@@ -846,8 +846,9 @@ theorem weight_slice_eq (D n core off len : Nat) (hn : 0 < n) (hc : core < n) (h
     · have := Nat.mod_add_div j n
       rw [Nat.mul_comm (j / n)]; omega
 
-/-- the scale records of a (core, slice): `biases[off+core : off+core+len : n]` is the same set only when
-    the slice length is a multiple of `n` or the slice is the last one (the list end clips it) -/
+/-- HISTORICAL (the code before the repair `fixed: property=C08 PENDING-1`): the former slice
+    `biases[off+core : off+core+len : n]` is the same set only when the slice length is a multiple of `n`
+    or the slice is the last one (the list end clips it).  No longer used by the property theorems. -/
 theorem scale_slice_eq (L n core off len : Nat) (hn : 0 < n) (hc : core < n) (hL : off + len ≤ L)
     (hreg : len % n = 0 ∨ off + len = L) :
     pySliceIdx L (off + core) (off + core + len) n = chanOf n core off len := by
@@ -1087,18 +1088,18 @@ theorem keys_ok (c : Cfg) (offsets : List Nat) (out : Out) (hb : c.ncores ≤ c.
   exact (made_expected c offsets out hb hf).map_eq _ _ (fun e r hm => by
     simp only [Function.comp, toARange]; rw [hm.hcore, hm.hdepth])
 
-/-- scale section of one created range, when the Python slice does not overshoot -/
+/-- scale section of one created range -/
 theorem made_scale (c : Cfg) (idx off len core : Nat) (r : Range) (S : List Nat) (hm : Made c idx off len core r)
     (hg : RangeGood c S r) (hlen : c.biases.length = c.scales.length) (hn : 0 < c.ncores) (hcore : core < c.ncores)
-    (hL : off + len ≤ c.biases.length) (hreg : len % c.ncores = 0 ∨ off + len = c.biases.length) :
+    (hL : off + len ≤ c.biases.length) :
     r.scaleCh = chanOf c.ncores core off len ∧ r.scaleBytes = 10 * (chanOf c.ncores core off len).length ∧
     (decodeRecords (bytesAt S r.offset r.scaleBytes)).map (fun l => l.map some)
       = some ((chanOf c.ncores core off len).map ((expOf c)[·]?)) ∧
     r.offset + r.scaleBytes ≤ S.length := by
   have hch : r.scaleCh = chanOf c.ncores core off len := by
-    rw [hm.hscaleCh]; exact scale_slice_eq _ _ _ _ _ hn hcore hL hreg
+    rw [hm.hscaleCh]; exact weight_slice_eq _ _ _ _ _ hn hcore hL
   have hrec := hm.recs
-  rw [← hlen, ← show scaleChannels c off len core = pySliceIdx c.biases.length (off + core) (off + core + len) c.ncores from rfl,
+  rw [← hlen, ← show scaleChannels c off len core = pySliceIdx c.biases.length (off + core) (off + len) c.ncores from rfl,
     ← hm.hscaleCh] at hrec
   obtain ⟨hl, hd⟩ := scaleRecords_diag c r.scaleCh r.scaleData hrec
   refine ⟨hch, ?_, ?_, ?_⟩
